@@ -16,7 +16,11 @@ on the wire outranks every wildcarded one), and may go to the controller only wh
   part P  prefix lattice: every pair of nw_src/nw_dst wildcard counters in {0,1,8,24,31,32,63} x address bit flips
   part B  all tables of <= N entries over an alphabet of overlapping matches x priorities, all insertion orders
   part H  lookup histories: all ordered pairs (thorough: triples) of frames, incl. near-collision variants of the corpus
-          frames, looked up back to back in one table with no table change in between; differential against a fresh switch
+          frames, looked up back to back in one table with no table change in between; differential against a fresh switch;
+          packet-out [set_vlan_vid / set_vlan_pcp / strip_vlan ..., output:TABLE]: the lookup of the frame the datapath
+          re-tagged itself must pick what the reference picks for the re-tagged BYTES (mc/refs/refmatch.retag)
+  part O  packet OBJECTS assembled with the pox.lib.packet constructors (never parsed), own / no / new VLAN tag, handed to
+          rx_packet: looked up like their packed bytes and like the reference says for those bytes
 """
 import itertools, os, traceback
 from mc.engine import pmap
@@ -905,13 +909,19 @@ def run (cfg):
     "priorities over the B matches plus tp_dst=80 and dl_vlan=5 (%d tables); %d frames = corpus + near-collision variants (%s); one "
     "history per table in which every ordered pair of frames (a frame with itself included) is looked up back to back and every A,B,A "
     "occurs%s, no flow-mod between lookups; every lookup must give what the same frame gives on a freshly built switch with the same table "
-    "(which is itself compared with the reference as in B).  distinct = (frame, participating field set, observation) for A/P, "
-    "(frame, allowed entries, entry that forwarded) for B, (previous frame, frame, observation) for H"
+    "(which is itself compared with the reference as in B); then, in the same table, a packet-out [VLAN actions, output:OFPP_TABLE] for "
+    "every Ethernet II frame x %d action lists (set_vlan_vid 5/0x123/0, set_vlan_pcp 2/7, vid+pcp, pcp+vid, strip_vlan, strip+vid): the "
+    "lookup must pick an entry the reference allows for the re-tagged bytes.  O: every Ethernet II corpus/variant frame without IP options "
+    "assembled from pox.lib.packet constructors with tag in %s, handed to rx_packet as an object and as its packed bytes, against a match "
+    "on each single field (frame's value / differing value, prerequisites specified) and the exact match.  distinct = (frame, participating field set, observation) for A/P, "
+    "(frame, allowed entries, entry that forwarded) for B, (previous frame, frame, observation) and (frame, actions, allowed, observed) for H, "
+    "(frame, tag, field, observation of object, of bytes) for O"
     % (len(frames), ", ".join(f.name for f in frames), a_rule, p_rule, len(COUNTERS) ** 2, list(COUNTERS),
        "/".join(map(str, FLIPS_ALL)), p_vec, depth, len(lookup_alphabet()),
        ", ".join(m for m, _ in lookup_alphabet()), list(PRIORITIES), OUT, len(frames),
        cfg.pick(2, 3), len(history_tables(thorough)), len(history_frames()), ", ".join(f.name for f in R.near_collisions()),
-       "; for tables of <=2 entries also a de Bruijn history containing every ordered triple of frames" if thorough else ""))
+       "; for tables of <=2 entries also a de Bruijn history containing every ordered triple of frames" if thorough else "",
+       len(VLAN_ACTIONS), list(TAGS)))
   rep.bound = dict(wildcard_bit_words=1024, counter_pairs_A=ncp, counter_pairs_P=len(COUNTERS) ** 2, deviations=cfg.pick(1, 2),
                    frames=len(frames), table_entries=depth, lookup_alphabet=len(kinds),
                    history_tables=len(history_tables(thorough)), history_frames=len(history_frames()), history_adjacent=cfg.pick(2, 3))
